@@ -59,3 +59,11 @@ import LapyVerif.Bridge.Poisson
 #print axioms LapyVerif.Bridge.poisson_system_neumann
 #print axioms LapyVerif.Bridge.poisson_result_neumann
 #print axioms LapyVerif.Bridge.poisson_format
+#print axioms LapyVerif.Bridge.census_DiffTri_pcCount
+#print axioms LapyVerif.Bridge.census_DiffTetPos_pcCount
+#print axioms LapyVerif.Bridge.census_DiffTetNeg_pcCount
+#print axioms LapyVerif.Bridge.census_FemTria_pcCount
+#print axioms LapyVerif.Bridge.census_FemTriaMass_pcCount
+#print axioms LapyVerif.Bridge.census_FemTriaAniso_pcCount
+#print axioms LapyVerif.Bridge.census_FemTet_pcCount
+#print axioms LapyVerif.Bridge.census_PoissonSys_pcCount
